@@ -947,7 +947,8 @@ end
 /-- how a persisted Nibiru account and a persisted reference account correspond; go-ethereum deletes an account that ends a
     transaction empty, Nibiru persists it as an empty record — the two are identified -/
 def AcctRel (E : Prop) : Option StoreAcc → Option (Nat × Nat × Int) → Prop
-  | some x, some y => y = (x.nonce, x.codeHash, x.balance * weiPerUnibi)
+  -- Nibiru's bank holds whole unibi: it persists the wei balance divided by 10^12, truncated
+  | some x, some y => y.1 = x.nonce ∧ y.2.1 = x.codeHash ∧ x.balance = Int.tdiv y.2.2 weiPerUnibi
   | none, none => True
   | some x, none => x.nonce = 0 ∧ x.codeHash = 0 ∧ x.balance = 0 ∧ E    -- `E`: why the reference has no account here
   | none, some _ => False
@@ -990,16 +991,15 @@ theorem dead_iff (x : GethSpec.Acc) (hs : x.suicided = false) :
     depth, returning or failing, on any accounts): Nibiru's journaled StateDB runs it to the end, and after `Commit` the store holds,
     at EVERY address, what go-ethereum's own end-of-transaction write-back leaves in its state — the same nonce, code hash and
     balance (an account go-ethereum deletes because it ended empty is an empty record in Nibiru) and the same value in every
-    storage slot.  Two side conditions, both about the final state and both guaranteed by the interpreter and the ante handler:
-    balances of the accounts Nibiru writes back are whole multiples of 10^12 wei (Nibiru's bank stores unibi), and an account that
-    ends the transaction empty without having self-destructed has no storage (only contract code writes storage). -/
+    storage slot; the balance Nibiru persists is go-ethereum's wei balance in whole unibi (divided by 10^12, truncated: Nibiru's bank
+    stores unibi).  One side condition, about the final state and guaranteed by the interpreter: an account that ends the
+    transaction empty without having self-destructed has no storage (only contract code writes storage). -/
 theorem C03_transaction_commit_matches_reference_partial (st : Store) (b : GethSpec.Base)
     (hok : ∀ a, st.acct a = none → ∀ k, st.slot a k = 0)
     (hacc : ∀ a, AList.find? b.accts a = (st.acct a).map (fun x => (x.nonce, x.codeHash, x.balance * weiPerUnibi)))
     (hslot : ∀ a k, b.slot a k = st.slot a k) (body : List Tree) (hbody : Tree.OKL2 st body) :
     ∃ s', runTL { txStore := st } body = some s' ∧
-      ((∀ a o, AList.find? s'.objs a = some o → a ∈ s'.dirties.map (·.1) → ∃ u : Int, o.balance = u * weiPerUnibi) →
-       (∀ a x, AList.find? (runGTL { base := b } body).tx.objs a = some x → x.suicided = false →
+      ((∀ a x, AList.find? (runGTL { base := b } body).tx.objs a = some x → x.suicided = false →
           x.nonce = 0 → x.balance = 0 → x.code = 0 →
           ∀ k, GethSpec.stateOf (runGTL { base := b } body) a x k = 0 ∧ b.slot a k = 0) →
        ∀ a, AcctRel (EndedEmpty (runGTL { base := b } body) a) ((commit s').txStore.acct a)
@@ -1011,7 +1011,7 @@ theorem C03_transaction_commit_matches_reference_partial (st : Store) (b : GethS
     have : objOf ({ txStore := st } : S) a = loadObj st a := rfl
     rw [this]; exact OptEqv.refl _ _ _
   obtain ⟨s', hrun, f, _, yg⟩ := runTL_full st body { txStore := st } { base := b } f0 hbody
-  refine ⟨s', hrun, fun hmult hempty a => ?_⟩
+  refine ⟨s', hrun, fun hempty a => ?_⟩
   have hbase : (runGTL { base := b } body).base = b := yg.base
   have hwf : WF s' := f.ninv.inv.1
   have hc : s'.cache = none := hwf.1
@@ -1056,11 +1056,9 @@ theorem C03_transaction_commit_matches_reference_partial (st : Store) (b : GethS
         · rfl
         · rw [hbase]; exact (z2 k).symm
       | false =>
-        obtain ⟨u, hu⟩ := hmult a o ho hD
         simp only [Bool.false_eq_true, if_false]
         refine ⟨?_, fun k => ?_⟩
-        · show (x.nonce, x.code, x.balance) = (o.nonce, o.codeHash, Int.tdiv o.balance weiPerUnibi * weiPerUnibi)
-          rw [← r1, ← r2, ← r3, hu, Int.mul_tdiv_cancel _ hw0]
+        · exact ⟨r2.symm, r3.symm, by rw [r1]⟩
         · rw [p2 k, gs k, hdead]
           simp only [Bool.false_eq_true, if_false]
           exact r5 k
@@ -1075,7 +1073,7 @@ theorem C03_transaction_commit_matches_reference_partial (st : Store) (b : GethS
       refine ⟨?_, fun k => ?_⟩
       · cases st.acct a with
         | none => exact True.intro
-        | some y => rfl
+        | some y => exact ⟨rfl, rfl, (Int.mul_tdiv_cancel _ hw0).symm⟩
       · rw [p2 k, gs k, hbase]; exact (hslot a k).symm
     | some x =>
       have hgobj : GethSpec.obj? (runGTL { base := b } body) a = some x := by unfold GethSpec.obj?; rw [hx]
@@ -1127,8 +1125,9 @@ theorem C03_transaction_commit_matches_reference_partial (st : Store) (b : GethS
             | false =>
               simp only [Bool.false_eq_true, if_false]
               refine ⟨?_, fun k => ?_⟩
-              · show (x.nonce, x.code, x.balance) = (y.nonce, y.codeHash, y.balance * weiPerUnibi)
-                rw [← r1, ← r2, ← r3, q1, q2, q3]
+              · refine ⟨by rw [← r2, q2], by rw [← r3, q3], ?_⟩
+                show y.balance = Int.tdiv x.balance weiPerUnibi
+                rw [← r1, q1, Int.mul_tdiv_cancel _ hw0]
               · rw [p2 k, gs k, hdead]
                 simp only [Bool.false_eq_true, if_false]
                 exact (hstate k).symm
@@ -1179,26 +1178,8 @@ example : ∀ a, AcctRel (EndedEmpty (runGTL { base := demoBase } demoTx) a) ((c
   have e : s' = demoFinal := by unfold demoFinal; rw [hr]; rfl
   subst e
   apply h
-  · intro a o ho _
-    have hobjs : demoFinal.objs =
-        [(1, { balance := 8000000000000, nonce := 2, codeHash := 7, origin := [(0, 9)], dirty := [(0, 5)] }),
-         (4, { balance := 2000000000000, origin := [(7, 0)] })] := by decide
-    rw [hobjs] at ho
-    by_cases h1 : a = 1
-    · subst h1
-      simp [AList.find?] at ho
-      subst ho
-      exact ⟨8, by simp [weiPerUnibi]⟩
-    · by_cases h4 : a = 4
-      · subst h4
-        simp [AList.find?] at ho
-        subst ho
-        exact ⟨2, by simp [weiPerUnibi]⟩
-      · have n1 : (1 : Nat) ≠ a := fun e => h1 e.symm
-        have n4 : (4 : Nat) ≠ a := fun e => h4 e.symm
-        simp [AList.find?, n1, n4] at ho
-  · intro a x hx _ hn hb _
-    have hobjs : (runGTL { base := demoBase } demoTx).tx.objs =
+  intro a x hx _ hn hb _
+  · have hobjs : (runGTL { base := demoBase } demoTx).tx.objs =
         [(1, { balance := 8000000000000, nonce := 2, code := 7, storage := [(0, 5)] }),
          (4, { balance := 2000000000000, fresh := true })] := by decide
     rw [hobjs] at hx
@@ -1255,12 +1236,12 @@ structure StoreEq (st : Store) (b : GethSpec.Base) : Prop where
 def persistN (st : Store) (body : List Tree) : Store := (commit ((runTL { txStore := st } body).getD {})).txStore
 def persistG (b : GethSpec.Base) (body : List Tree) : GethSpec.Base := (GethSpec.commit (runGTL { base := b } body)).base
 
-/-- the side conditions of one transaction over `(st, b)`: `CreateAccount` only where `evm.create` may call it; balances written
-    back are whole unibi; no materialised account ends the transaction empty (so the reference deletes nothing as empty) -/
+/-- the side conditions of one transaction over `(st, b)`: `CreateAccount` only where `evm.create` may call it; the balances the
+    reference persists are whole unibi (otherwise Nibiru's bank, which truncates, holds less than the reference at the next start);
+    no materialised account ends the transaction empty (so the reference deletes nothing as empty) -/
 structure TxOK (st : Store) (b : GethSpec.Base) (body : List Tree) : Prop where
   create : Tree.OKL2 st body
-  whole : ∀ s', runTL { txStore := st } body = some s' →
-    ∀ a o, AList.find? s'.objs a = some o → a ∈ s'.dirties.map (·.1) → ∃ u : Int, o.balance = u * weiPerUnibi
+  whole : ∀ a y, AList.find? (persistG b body).accts a = some y → ∃ u : Int, y.2.2 = u * weiPerUnibi
   noEmpty : ∀ a, ¬ EndedEmpty (runGTL { base := b } body) a
 
 theorem storeEq_step (st : Store) (b : GethSpec.Base) (h : StoreEq st b) (body : List Tree) (hok : TxOK st b body) :
@@ -1270,7 +1251,8 @@ theorem storeEq_step (st : Store) (b : GethSpec.Base) (h : StoreEq st b) (body :
   have e : s'' = s' := by rw [hrun] at hrun'; exact (Option.some.inj hrun').symm
   subst e
   have hp : persistN st body = (commit s'').txStore := by unfold persistN; rw [hrun]; rfl
-  have hconcl := hmain (hok.whole s'' hrun) (fun a x hx hs hn hb hc => absurd ⟨x, hx, hs, hn, hb, hc⟩ (hok.noEmpty a))
+  have hconcl := hmain (fun a x hx hs hn hb hc => absurd ⟨x, hx, hs, hn, hb, hc⟩ (hok.noEmpty a))
+  have hw0 : weiPerUnibi ≠ 0 := by unfold weiPerUnibi; decide
   rw [hp]
   refine ⟨habs, fun a => ?_, fun a k => ((hconcl a).2 k).symm⟩
   have hr := (hconcl a).1
@@ -1285,7 +1267,12 @@ theorem storeEq_step (st : Store) (b : GethSpec.Base) (h : StoreEq st b) (body :
     rw [hx] at hr
     cases hy : AList.find? (GethSpec.commit (runGTL { base := b } body)).base.accts a with
     | none => rw [hy] at hr; exact absurd hr.2.2.2 (hok.noEmpty a)
-    | some y => rw [hy] at hr; simp only [Option.map]; rw [hr]
+    | some y =>
+      rw [hy] at hr
+      obtain ⟨u, hu⟩ := hok.whole a y (by unfold persistG; exact hy)
+      obtain ⟨e1, e2, e3⟩ := hr
+      simp only [Option.map]
+      rw [← e1, ← e2, e3, hu, Int.mul_tdiv_cancel _ hw0, ← hu]
 
 def runTxsN (st : Store) : List (List Tree) → Store
   | [] => st
@@ -1317,20 +1304,16 @@ def demoTx2 : List Tree :=
   [ .r (.state 1 0), .w (.addBalance 4 1000000000000), .frame false [ .w (.setNonce 4 9), .w (.setState 1 0 6) ], .w (.setState 1 2 3) ]
 
 theorem demo_txok1 : TxOK demoStore demoBase demoTx := by
-  refine ⟨demoTx_ok, fun s' hr a o ho _ => ?_, fun a ⟨x, hx, _, hn, hb, _⟩ => ?_⟩
-  · have e : s' = demoFinal := by unfold demoFinal; rw [hr]; rfl
-    subst e
-    have hobjs : demoFinal.objs =
-        [(1, { balance := 8000000000000, nonce := 2, codeHash := 7, origin := [(0, 9)], dirty := [(0, 5)] }),
-         (4, { balance := 2000000000000, origin := [(7, 0)] })] := by decide
-    rw [hobjs] at ho
+  refine ⟨demoTx_ok, fun a y hy => ?_, fun a ⟨x, hx, _, hn, hb, _⟩ => ?_⟩
+  · have hacc : (persistG demoBase demoTx).accts = [(1, 2, 7, 8000000000000), (4, 0, 0, 2000000000000)] := by decide
+    rw [hacc] at hy
     by_cases h1 : a = 1
-    · subst h1; simp [AList.find?] at ho; subst ho; exact ⟨8, by simp [weiPerUnibi]⟩
+    · subst h1; simp [AList.find?] at hy; subst hy; exact ⟨8, by simp [weiPerUnibi]⟩
     · by_cases h4 : a = 4
-      · subst h4; simp [AList.find?] at ho; subst ho; exact ⟨2, by simp [weiPerUnibi]⟩
+      · subst h4; simp [AList.find?] at hy; subst hy; exact ⟨2, by simp [weiPerUnibi]⟩
       · have n1 : (1 : Nat) ≠ a := fun e => h1 e.symm
         have n4 : (4 : Nat) ≠ a := fun e => h4 e.symm
-        simp [AList.find?, n1, n4] at ho
+        simp [AList.find?, n1, n4] at hy
   · have hobjs : (runGTL { base := demoBase } demoTx).tx.objs =
         [(1, { balance := 8000000000000, nonce := 2, code := 7, storage := [(0, 5)] }),
          (4, { balance := 2000000000000, fresh := true })] := by decide
@@ -1348,20 +1331,16 @@ def demoBase2 : GethSpec.Base := persistG demoBase demoTx
 def demoFinal2 : S := (runTL { txStore := demoStore2 } demoTx2).getD {}
 
 theorem demo_txok2 : TxOK demoStore2 demoBase2 demoTx2 := by
-  refine ⟨by simp [demoTx2, Tree.OKL2, Tree.OK2], fun s' hr a o ho _ => ?_, fun a ⟨x, hx, _, hn, hb, _⟩ => ?_⟩
-  · have e : s' = demoFinal2 := by unfold demoFinal2; rw [hr]; rfl
-    subst e
-    have hobjs : demoFinal2.objs =
-        [(1, { balance := 8000000000000, nonce := 2, codeHash := 7, origin := [(0, 5), (2, 0)], dirty := [(0, 5), (2, 3)] }),
-         (4, { balance := 3000000000000 })] := by decide
-    rw [hobjs] at ho
+  refine ⟨by simp [demoTx2, Tree.OKL2, Tree.OK2], fun a y hy => ?_, fun a ⟨x, hx, _, hn, hb, _⟩ => ?_⟩
+  · have hacc : (persistG demoBase2 demoTx2).accts = [(1, 2, 7, 8000000000000), (4, 0, 0, 3000000000000)] := by decide
+    rw [hacc] at hy
     by_cases h1 : a = 1
-    · subst h1; simp [AList.find?] at ho; subst ho; exact ⟨8, by simp [weiPerUnibi]⟩
+    · subst h1; simp [AList.find?] at hy; subst hy; exact ⟨8, by simp [weiPerUnibi]⟩
     · by_cases h4 : a = 4
-      · subst h4; simp [AList.find?] at ho; subst ho; exact ⟨3, by simp [weiPerUnibi]⟩
+      · subst h4; simp [AList.find?] at hy; subst hy; exact ⟨3, by simp [weiPerUnibi]⟩
       · have n1 : (1 : Nat) ≠ a := fun e => h1 e.symm
         have n4 : (4 : Nat) ≠ a := fun e => h4 e.symm
-        simp [AList.find?, n1, n4] at ho
+        simp [AList.find?, n1, n4] at hy
   · have hobjs : (runGTL { base := demoBase2 } demoTx2).tx.objs =
         [(4, { balance := 3000000000000 }),
          (1, { balance := 8000000000000, nonce := 2, code := 7, storage := [(2, 3)] })] := by decide
